@@ -186,11 +186,14 @@ P('C09', claimed=True, level='proof',
               'add, remove and pop (loop invariant + variant); add/remove/pop/peek/empty have '
               'postconditions over the whole view (others undisturbed, re-add becomes the most recent '
               'entry, pop/peek return the (time, insertion)-minimum/maximum, KeyError iff empty); a lemma '
-              'over the contracts gives non-decreasing time, FIFO among equal times and each item once. '
+              'over the contracts gives non-decreasing time, FIFO among equal times and each item once; '
+              'iteration (__iter__, generator body with yield as ghost event) leaves the queue untouched and '
+              'yields, per pass, the i-th entry of the (time, insertion) order iff it is not a removed one. '
               'A model-based bounded driver re-checks all histories of length <= 6 and the clients.'),
-  level_note=('Trusted: heapq (heappush/heappop/nsmallest/nlargest) under the stated library contract, '
-              'finite-set cardinality axioms, dict/itertools.count models. __iter__ is a generator: '
-              'bounded only. Priorities are finite reals.'))
+  level_note=('Trusted: heapq (heappush/heappop/nsmallest/nlargest) under the stated library contract - for '
+              'iteration: nsmallest(len(heap), heap) enumerates the heap bijectively in list order, which is the '
+              '(prio, count) order for pairwise distinct counts (asserted as call precondition) - finite-set '
+              'cardinality axioms, dict/itertools.count models. Priorities are finite reals.'))
 
 P('C10', claimed=True, level='other', contracts=['base_clock_sched', 'base_rng', 'base_stream', 'base_oscinterface'], drivers=['vf.drivers.C10'],
   level_text=('The mode switch refines one contract: for SystemClock.sched/sched_abs, TempoClock.sched/'
